@@ -372,6 +372,7 @@ func runC14(x *X) {
 	runC14Repeats(x, c14Tables(), c14Ops())
 	runC14Interleaved(x)
 	runC14Reentrant(x)
+	runC14OuterWrapper(x)
 	heavy := c14HeavyTables()
 	hops := c14Ops()
 	x.Explore("very-large-declared-sizes", ExploreOpts{ShardDepth: 2, Bound: "a table whose items declare heights of 1025 and 1500 lines and a width of 300 cells x every sequence of <=2 render operations"}, func(c *Chooser) {
